@@ -58,7 +58,7 @@ Proof.
   intros [pm [news [E [P N]]]]. exists pm. split.
   - destruct N as [N | [N _]]; [subst news; rewrite app_nil_r in E; exact E | discriminate].
   - intros m Hm. specialize (P m Hm). destruct (pm m) as [m'|].
-    + inversion P as [Es | Hr He Es | | |]; subst; try (simpl in *; discriminate).
+    + inversion P as [Es | Hr He Hp Es | | |]; subst; try (simpl in *; discriminate).
       * left. reflexivity.
       * right. left. repeat split; assumption.
       * match goal with H : In _ (item_pairs (RErr _)) |- _ => destruct H end.
